@@ -7,7 +7,7 @@ from typing import Dict, List, Set
 from ..cfg import CFG
 from ..core import Ctx
 from ..model import AnalysisError, FuncInfo, Ty, dotted, norm, walk_no_nested
-from .common import assigned_value, enclosing, ext_calls, prog, top_level_index
+from .common import assigned_value, enclosing, ext_calls, prog, stores_to, top_level_index
 
 POOL_FUNCS = ["Continuum.compute_gamma", "GammaResults.gamma_cat", "GammaResults.gamma_k"]
 RNG_MODULES = {"pygamma_agreement.sampler", "pygamma_agreement.cst"}     # who may draw from numpy's global RNG
@@ -42,6 +42,7 @@ def run(ctx: Ctx):
         "R-C06-5 numpy RNG draws only in sampler.py / cst.py, np.random.seed only in the CLI, nothing reachable from a dissimilarity constructor draws from numpy's RNG",
         "R-C06-6 no loop or comprehension reachable from compute_gamma / gamma_cat / gamma_k iterates a builtin set (hash order) unless it only feeds an error message",
         "R-C06-7 every write of compute_gamma to an object that outlives the call happens before the pool is started",
+        "R-C06-8 the machine's core count (os.cpu_count and friends) only sizes the worker pool: nothing derived from it reaches the computation",
     ]
     ctx.not_decided += ["determinism of the numba kernels and of the MIP solvers as functions of their inputs (trusted)"]
     ctx.assumptions += ["Python evaluates call arguments in the calling thread before the call",
@@ -207,6 +208,35 @@ def run(ctx: Ctx):
                         f"(object addresses, PYTHONHASHSEED, clock)", key=f"nondet:{cs.external}")
     ctx.ok("R-C06-6", None, None, f"{len(p.reachable(roots))} reachable functions swept for set iteration",
            construct="(sweep)")
+    # the machine's core count may size the pool and nothing else: a value derived from it that reaches the computation (batch sizes,
+    # grouping of a floating-point sum, chunking of the samples) makes the result depend on the number of workers
+    MACHINE = ("os.cpu_count", "multiprocessing.cpu_count", "os.sched_getaffinity", "os.process_cpu_count", "psutil.cpu_count")
+    n_machine = 0
+    for qn, path in sorted(p.reachable(roots).items()):
+        f = M.functions.get(qn)
+        if f is None or isinstance(f.node, ast.Lambda):
+            continue
+        pools = [c for c in walk_no_nested(f.node) if isinstance(c, ast.Call) and norm(c.func).split(".")[-1] in ("ThreadPoolExecutor", "ProcessPoolExecutor", "Pool")]
+
+        def sizes_pool_only(node) -> bool:
+            return any(node is x for c in pools for a in list(c.args) + [k.value for k in c.keywords] for x in ast.walk(a))
+        for cs in p.all_calls(f):
+            if not (cs.external and cs.external in MACHINE):
+                continue
+            n_machine += 1
+            ok = sizes_pool_only(cs.node)
+            if not ok:
+                # through a local used for nothing but sizing the pool
+                for st in walk_no_nested(f.node):
+                    if isinstance(st, ast.Assign) and len(st.targets) == 1 and isinstance(st.targets[0], ast.Name) and any(cs.node is x for x in ast.walk(st.value)):
+                        nm = st.targets[0].id
+                        loads = [x for x in walk_no_nested(f.node) if isinstance(x, ast.Name) and x.id == nm and isinstance(x.ctx, ast.Load)]
+                        ok = bool(loads) and all(sizes_pool_only(x) for x in loads) and len(stores_to(f.node, nm)) == 1
+            ctx.check(ok, "R-C06-8", f, cs.node, f"{cs.external}() only sizes the worker pool",
+                      bad_detail=f"{cs.external}() is used for something else than the size of the worker pool (reached via {' -> '.join(path[-3:])}): "
+                                 f"whatever is derived from it (batch boundaries, order of a floating-point accumulation) makes the result depend on the "
+                                 f"number of workers", key=f"machine:{qn}")
+    ctx.floor("R-C06-8", 3, "uses of the machine's core count in the gamma computations")
 
     # ---------------- R-C06-7 persistent writes precede the pool
     f = ctx.fn("Continuum.compute_gamma", "R-C06-7")
